@@ -339,6 +339,9 @@ class GroupedType(BaseDataType):
             for key in self.__dict__.keys():
                 if avp_key in key:
                     index += 1
+            #: A name already in use (e.g. after a pop) is never taken again.
+            while f"{avp_key}__{index}" in self.__dict__:
+                index += 1
             avp_key = f"{avp_key}__{index}"
 
         self._avps.append(avp)
